@@ -18,6 +18,7 @@ RULE = ("documents written by Python (json.dumps with random indentation/escapin
         "counted. `include str` must equal the file text, `include b64|b64urlsafe` Python's base64 of the file bytes "
         "(text, empty and arbitrary binary files); unknown include types and missing files must fail. distinct = "
         "distinct (format, file bytes); non-trivial = a container document or a non-ASCII / binary file.")
+RULE += (" " + 'Also: byte-level corruption of every second document into invalid UTF-8 (stray, truncated, overlong and surrogate sequences, never at the first two bytes); files whose sizes sit around 256, 1024, 2048, 4096, 8192 and 65,536 bytes; documents with a long string and a long list next to the data.')
 
 I64 = (-(2 ** 63), 2 ** 63 - 1)
 
